@@ -354,7 +354,6 @@ class C12(Spec):
 
     def want_term(self, c, res):
         r = res['res']
-        c.pop('_res', None)
         if c['kind'] == 'data':
             if 'e' in r:
                 return '(VE 1)'
